@@ -1,4 +1,5 @@
 SPECIFICATION Spec
 INVARIANT DetLeakFree
+INVARIANT PairLeakFree
 INVARIANT Stats
 CHECK_DEADLOCK FALSE
